@@ -74,6 +74,7 @@ func genSys(r *crsgen.R) *sys {
 		tw, tw4, s.towgs = ",TOWGS84["+strings.Join(p, ",")+"]", " +towgs84="+strings.Join(p, ","), 3
 	case 2:
 		p := []string{F(r.Range(-500, 500)), F(r.Range(-500, 500)), F(r.Range(-500, 500)), F(r.Range(-5, 5)), F(r.Range(-5, 5)), F(r.Range(-5, 5)), F(r.Range(-20, 20))}
+		crsgen.SparseTowgs84(r, p)
 		tw, tw4, s.towgs = ",TOWGS84["+strings.Join(p, ",")+"]", " +towgs84="+strings.Join(p, ","), 7
 	}
 	geog := `GEOGCS["GCS_Verif_Custom",DATUM["D_Verif_Custom",` + sph + tw + `],PRIMEM["Greenwich",0.0],UNIT["Degree",0.0174532925199433]]`
